@@ -167,3 +167,57 @@ def check_delete_e2e(facts, chk, rule, tier):
         chk.violation(rule, key, where='generic_modes::delete', evals=n, detail='%d of %d cases; first: %d samples, delete %s, rc=%s: %s' % ((len(bad), n) + bad[0]))
     else:
         chk.ok(rule, key, 'generic_modes::delete', 'delete of built files == build of the remaining samples for every non-empty proper subset (both argument orders, both strand modes); unknown / all names refused with nothing written (%d runs)' % n, evals=n)
+
+
+def check_merge_empty(facts, chk, rule, tier):
+    """`ska merge` where one input holds samples but no split k-mers (the result of an earlier `ska weed` that removed everything,
+    e.g. --reverse against unrelated sequences): the merged file still lists that file's samples, in argument order, missing ('-')
+    at every k-mer - in first, middle and last position, and merged in either order."""
+    key = rule + ':merge-empty'
+    bad = []
+    n = 0
+    k = 5
+    pool = [('s0', ['ACCAGTTGACCAT']), ('s1', ['ACCAGATGACC', 'TGGTACC']), ('s2', ['GGTACCAGTT']), ('s3', ['ACCAGCTGACC'])]
+    for rc in (1, 0):
+        full = {i: build(facts, [pool[i]], k, rc) for i in range(4)}
+        two = build(facts, [pool[2], pool[3]], k, rc)
+        # emptied files: the real weed on the built array, reverse mode with an empty weed set keeps nothing
+        def emptied(arrv):
+            I = Interp(facts, {'IntT': 'u64'})
+            c = Cell(copy.deepcopy(arrv), 'arr')
+            I.call_fn(MSA + '::weed', [RefV(c), RefV(tableops.mk_refska(facts, [])), BV(1, 1)])
+            return c.v
+        e0 = emptied(full[0])
+        e23 = emptied(two)
+        if table_of(facts, e0)[1] or table_of(facts, e23)[1]:
+            raise AnchorLost('reverse weed against nothing did not empty the table')
+        layouts = [([('e', e0, ['s0']), ('f', full[1], None)]), ([('f', full[1], None), ('e', e0, ['s0'])]), ([('f', full[1], None), ('e', e23, ['s2', 's3']), ('f', full[0], None)]),
+                   ([('e', e23, ['s2', 's3']), ('f', full[0], None), ('f', full[1], None)]), ([('e', e0, ['s0']), ('e', e23, ['s2', 's3'])])]
+        for lay in layouts:
+            skf = {'m%d.skf' % j: (x[1], 'u64') for j, x in enumerate(lay)}
+            tabs = []
+            for x in lay:
+                nm, rows = table_of(facts, x[1])
+                tabs.append(tableops.Table(list(nm), [(kk, ''.join(b) if not isinstance(b, str) else b) for kk, b in rows]))
+            want = tableops.spec_merge(tabs)
+            saved = []
+            I = Interp(facts, {'IntT': 'u64'})
+            _install_skf(I, facts, skf, saved)
+            rest = Agg('array', 0, [StrV(list('m%d.skf' % j)) for j in range(1, len(lay))])
+            n += 1
+            try:
+                I.call_fn('generic_modes::merge', [RefV(Cell(copy.deepcopy(skf['m0.skf'][0]), 'first')), RefV(Cell(rest, 'files'), (), (0, len(lay) - 1)), RefV(Cell(StrV(list('out')), 'o'))])
+            except Panic as p:
+                bad.append(([x[0] for x in lay], rc, 'merge with an emptied input panics: %s' % p.kind))
+                continue
+            if len(saved) != 1:
+                bad.append(([x[0] for x in lay], rc, '%d files written' % len(saved)))
+                continue
+            gn, grows = table_of(facts, saved[0][1])
+            grows = sorted((kk, ''.join(b) if not isinstance(b, str) else b) for kk, b in grows)
+            if list(gn) != want.names or grows != sorted(want.rows):
+                bad.append(([x[0] for x in lay], rc, 'merged samples %s, expected %s (every input\'s samples in argument order); %d rows, expected %d' % (list(gn), want.names, len(grows), len(want.rows))))
+    if bad:
+        chk.violation(rule, key, where='generic_modes::merge', evals=n, detail='%d of %d cases; first: inputs (e = emptied by weed, f = full) %s rc=%s: %s' % ((len(bad), n) + bad[0]))
+    else:
+        chk.ok(rule, key, 'generic_modes::merge', 'a file emptied by weed keeps its samples through merge (first / middle / last / only emptied inputs, both strand modes): names in argument order, gaps in its columns (%d runs)' % n, evals=n)
